@@ -28,6 +28,9 @@ def main(argv):
     elif argv and argv[0] == "--wave4":
         wave, srcroot, wtroot = "w4-", "/tmp/seed5", "/tmp/wt5"
         argv = argv[1:]
+    elif argv and argv[0] == "--wave7":
+        wave, srcroot, wtroot = "w7-", "/tmp/seed9", "/tmp/wt9"
+        argv = argv[1:]
     elif argv and argv[0] == "--wave6":
         wave, srcroot, wtroot = "w6-", "/tmp/seed7", "/tmp/wt7"
         argv = argv[1:]
